@@ -16,4 +16,4 @@ git apply -R seed/patch.diff; eval "$runc" > /tmp/demo-without.log 2>&1; echo "d
 eval "$clean"
 git -C /repo apply --check "$d/seed/patch.diff" 2>/dev/null && echo applies-to-HEAD || echo "DOES NOT APPLY to /repo HEAD"
 cd /verif
-for c in "$@"; do out=$(VERIF_REPO=$d VERIF_SCRATCH=seed$$ timeout 1500 ./check $c quick 2>&1); rc=$?; echo "check $c rc=$rc :: $(echo "$out" | grep -E 'VIOLATION|INCONCLUSIVE|HELD' | head -2 | cut -c1-230)"; done
+for c in "$@"; do out=$(VERIF_REPO=$d VERIF_SCRATCH=seed$$ timeout 1500 ./check $c quick 2>&1); rc=$?; echo "check $c rc=$rc :: $(echo "$out" | grep -a -E 'VIOLATION|INCONCLUSIVE|HELD' | head -2 | cut -c1-230)"; done
